@@ -11,7 +11,10 @@ reg("C22",
     text="32 (quick) / 200 (thorough) seeded base programs over a 27-operator catalogue (all persistence variants, defer_tick "
          "cycles), each with 3-6 semantically identical shape variants (identity/map(|x| x)/tee+null/unary union or tee/"
          "union with an empty source/handoff() on random edges, shuffled declaration order) selected so that operators "
-         "flip between pull and push and subgraphs split or merge; all variants must compile or none (front end observed "
+         "flip between pull and push and subgraphs split or merge; every program starts with a binary operator (anti_join, "
+         "difference, join, cross_singleton, zip; persistence combinations incl. the mixed 'tick/'static ones cycle with the "
+         "group) fed inline from the sources, and always gets variants with a handoff/tee on input 0 only, on input 1 only "
+         "and on both; two thirds of the histories are sparse (40 % empty batches per source and tick, 3x3 item domain); all variants must compile or none (front end observed "
          "in-process, rustc per crate with a one-crate-per-program second pass), and every compiled variant must produce the "
          "base variant's per-tick trace on 200 / 600 random histories (sequences where order is documented, multisets "
          "otherwise). " + _T,
